@@ -5,6 +5,7 @@ import numpy as np
 from .. import core, gen
 
 PROP_FILE = 'Knee/Props/C15.lean'
+PROP_FILES = ['Knee/Props/C15.lean', 'Knee/Props/C15S.lean']
 KINDS = ['r2', 'rmspe', 'rmsle', 'rpd', 'smape']
 RULE = ('performance curves (dyadic families) x breakpoint subsets (ascending, both ends; all-points and two-point sets included) x 5 metrics x query '
         'histories of 2..8 breakpoint sets sharing one cache (repeated, nested, shuffled sets). Value correspondence: gcostQ fed with the package\'s own '
